@@ -8,6 +8,7 @@ import (
 	"sort"
 	"strings"
 	"sync"
+	"syscall"
 
 	"github.com/bmatcuk/doublestar/v4"
 
@@ -48,6 +49,7 @@ func c12Decls() []c12Decl {
 		{ID: "lit-dir-prefix-sibling", IsLit: true, Lit: "dir2.tar", Rel: "dir2.tar"},
 		{ID: "glob-top", IsLit: true, Lit: "*.gen", Glob: "*.gen"},
 		{ID: "glob-nested", IsLit: true, Lit: "gen/*.o", Glob: "gen/*.o"},
+		{ID: "glob-nested-also-dep", IsLit: true, Lit: "gen/*.o", Glob: "gen/*.o"}, // the same pattern is a dependency of the task as well
 		{ID: "glob-nomatch", IsLit: true, Lit: "nomatch/*", Glob: "nomatch/*"},
 		{ID: "glob-hidden-dir", IsLit: true, Lit: ".cache/*.o", Glob: ".cache/*.o"}, // hidden: designates nothing, and never cache/*.o
 		{ID: "glob-dot-slash", IsLit: true, Lit: "./gen/*.o", Glob: "./gen/*.o"},
@@ -76,7 +78,7 @@ func c12Decls() []c12Decl {
 }
 
 // the designatable paths of the project tree (bit i of the tree mask = present)
-var c12Paths = []string{"o1", "dir/o2", "a.gen", "b.gen", "gen/x.o", "o3", "sub/o4", "sub/o5", "o1.log", "dir2.tar", ".cache/y.o", "cache/y.o", "o[1].txt", "o1.txt", "ready?.md", "readyX.md", "@lnk", "@dlnk", "out/$arch", "out/arm", "out/${arch}.o", "out/arm.o", "out/.o", "~", "@rodir"}
+var c12Paths = []string{"o1", "dir/o2", "a.gen", "b.gen", "gen/x.o", "o3", "sub/o4", "sub/o5", "o1.log", "dir2.tar", ".cache/y.o", "cache/y.o", "o[1].txt", "o1.txt", "ready?.md", "readyX.md", "@lnk", "@dlnk", "out/$arch", "out/arm", "out/${arch}.o", "out/arm.o", "out/.o", "~", "@rodir", "@fifo"}
 
 // c12Relevant: indexes into c12Paths of the paths a declaration designates or could be confused with
 func c12Relevant(id string) []int {
@@ -98,8 +100,8 @@ func c12Relevant(id string) []int {
 		return pi("dir/o2", "dir2.tar", "@lnk")
 	case "glob-top":
 		return pi("a.gen", "b.gen")
-	case "glob-nested", "glob-dot-slash":
-		return pi("gen/x.o")
+	case "glob-nested", "glob-dot-slash", "glob-nested-also-dep":
+		return pi("gen/x.o", "@fifo")
 	case "glob-hidden-dir":
 		return pi(".cache/y.o", "cache/y.o")
 	case "var-rel":
@@ -125,11 +127,13 @@ func c12Relevant(id string) []int {
 }
 
 type c12Case struct {
-	Decls     []string `json:"decls"` // IDs
-	Mask      int      `json:"mask"`
-	CleanTask bool     `json:"clean_task"`
-	Nested    bool     `json:"nested,omitempty"`
-	SpokLink  bool     `json:"spok_link,omitempty"` // the project's spokfile is a symbolic link to a file in another directory
+	Decls       []string `json:"decls"` // IDs
+	Mask        int      `json:"mask"`
+	CleanTask   bool     `json:"clean_task"`
+	Nested      bool     `json:"nested,omitempty"`
+	SpokLink    bool     `json:"spok_link,omitempty"`    // the project's spokfile is a symbolic link to a file in another directory
+	Cache       string   `json:"cache,omitempty"`        // state of .spok: "" directory with cache.json | "no-json" | "absent" | "dangling" (cache.json is a dangling link) | "extra" (further files in it)
+	BrokenClean bool     `json:"broken_clean,omitempty"` // a task named clean exists but depends on an undefined task
 }
 
 func c12DeclByID(id string) c12Decl {
@@ -153,7 +157,13 @@ func (c c12Case) text() string {
 			outs = append(outs, d.Var)
 		}
 	}
-	sb.WriteString("\n# Builds things\ntask build(\"src.txt\")")
+	alsoDep := ""
+	for _, id := range c.Decls {
+		if id == "glob-nested-also-dep" {
+			alsoDep = ", \"gen/*.o\""
+		}
+	}
+	sb.WriteString("\n# Builds things\ntask build(\"src.txt\"" + alsoDep + ")")
 	switch len(outs) {
 	case 0:
 	case 1:
@@ -165,6 +175,9 @@ func (c c12Case) text() string {
 	sb.WriteString(" {\n    echo build >> \"$VLOG\"\n}\n\n")
 	if len(outs) > 1 {
 		fmt.Fprintf(&sb, "task pack(build) -> (%s) {\n    echo pack >> \"$VLOG\"\n}\n\n", strings.Join(outs[1:], ", "))
+	}
+	if c.BrokenClean {
+		sb.WriteString("# User clean\ntask clean(nosuchtask) {\n    echo cleaned >> \"$VLOG\"\n}\n")
 	}
 	if c.CleanTask {
 		sb.WriteString("# User clean\ntask clean() {\n    echo cleaned >> \"$VLOG\"\n}\n")
@@ -245,6 +258,11 @@ func c12Cases(tier string) []c12Case {
 				out = append(out, c12Case{Decls: s, Mask: m, CleanTask: ct})
 			}
 		}
+		// other states of the cache directory, and a clean task that cannot run
+		for _, cs := range []string{"no-json", "absent", "dangling", "extra"} {
+			out = append(out, c12Case{Decls: s, Mask: full, Cache: cs})
+		}
+		out = append(out, c12Case{Decls: s, Mask: full, BrokenClean: true})
 		// the same with a symlinked spokfile, and invoked from a sub-directory of the project, for the full tree
 		out = append(out, c12Case{Decls: s, Mask: full, SpokLink: true})
 		joinRelative := false
@@ -284,8 +302,23 @@ func c12Run(root string, c c12Case) (obs []c12Obs, outcome string) {
 	t.File(projRel+"/dir/keep", "keep\n")
 	t.File(projRel+"/sub/keep", "keep\n")
 	t.File(projRel+"/out/keep", "keep\n")
-	t.File(projRel+"/.spok/cache.json", `{"build":""}`)
-	t.File(projRel+"/.spok/.gitignore", "*\n")
+	switch c.Cache {
+	case "absent":
+	case "no-json":
+		t.File(projRel+"/.spok/.gitignore", "*\n")
+	case "dangling":
+		t.File(projRel+"/.spok/.gitignore", "*\n")
+		os.Symlink(filepath.Join(proj, "nowhere.json"), filepath.Join(proj, ".spok/cache.json"))
+		os.Lchown(filepath.Join(proj, ".spok/cache.json"), 65534, 65534)
+	case "extra":
+		t.File(projRel+"/.spok/cache.json", `{"build":""}`)
+		t.File(projRel+"/.spok/.gitignore", "*\n")
+		t.File(projRel+"/.spok/CACHEDIR.TAG", "Signature: 8a477f597d28d172789f06886806bc55\n")
+		t.File(projRel+"/.spok/sub/other", "x\n")
+	default:
+		t.File(projRel+"/.spok/cache.json", `{"build":""}`)
+		t.File(projRel+"/.spok/.gitignore", "*\n")
+	}
 	unremovable := false
 	for i, p := range c12Paths {
 		if c.Mask&(1<<i) != 0 {
@@ -293,6 +326,11 @@ func c12Run(root string, c c12Case) (obs []c12Obs, outcome string) {
 			case "@lnk":
 				os.Symlink(filepath.Join(proj, "dir", "o2"), filepath.Join(proj, "lnk"))
 				os.Lchown(filepath.Join(proj, "lnk"), 65534, 65534)
+			case "@fifo":
+				// a named pipe matching the nested glob
+				os.MkdirAll(filepath.Join(proj, "gen"), 0o755)
+				syscall.Mkfifo(filepath.Join(proj, "gen/pipe.o"), 0o644)
+				os.Lchown(filepath.Join(proj, "gen/pipe.o"), 65534, 65534)
 			case "@rodir":
 				// rodir/locked (0555) holds a file and a symbolic link to keep.txt: as nobody, removal of its
 				// entries is refused by the system; whatever spok does about that, keep.txt is not its business
@@ -326,6 +364,19 @@ func c12Run(root string, c c12Case) (obs []c12Obs, outcome string) {
 		return []c12Obs{{"process-died", fmt.Sprintf("signal=%s timeout=%v %s", o.Signal, o.TimedOut, firstLines(o.Stderr, 3))}}, "died"
 	}
 	removed, added, changed := bin.Diff(before, after)
+	if c.BrokenClean {
+		// the user's clean task cannot run (undefined dependency): an error, and spok itself removes nothing
+		if o.Exit == 0 {
+			obs = append(obs, c12Obs{"broken-clean-task-ignored", fmt.Sprintf("a task named clean exists but depends on an undefined task; --clean exited 0: %s", firstLines(o.Stdout, 2))})
+		}
+		for _, p := range removed {
+			obs = append(obs, c12Obs{"removed-although-clean-task-exists", fmt.Sprintf("%s was removed although a task named clean exists (it cannot run: undefined dependency)", p)})
+			if len(obs) > 4 {
+				break
+			}
+		}
+		return
+	}
 	// reference: what may / must be removed
 	expected := map[string]bool{}
 	under := func(rel string) {
